@@ -264,6 +264,12 @@ impl<P: ParallelVariant> Rans64Encoder<P> {
 
     /// Normalize frequencies to target total frequency (power of 2)
     fn normalize_frequencies(frequencies: &[u32; 256], total_freq: u32) -> Result<[u32; 256]> {
+        // A table that already sums to TOTFREQ is normalized: keep it as it is, so that a
+        // table read back from an encoder (get_symbol().freq) rebuilds that same encoder.
+        if total_freq == TOTFREQ {
+            return Ok(*frequencies);
+        }
+
         let mut normalized = [0u32; 256];
         let mut remaining = TOTFREQ;
         let mut used_symbols = 0;
